@@ -170,7 +170,8 @@ func sharedContainers(docs []*bkl.Document) (int, []any) {
 	walk = func(v any, path []any) {
 		switch v2 := v.(type) {
 		case map[string]any:
-			if len(v2) > 0 && visit(reflect.ValueOf(v2).Pointer(), path) {
+			// an empty map is as mutable as any other (mergeMapMap writes into it); only nil has no identity
+			if ptr := reflect.ValueOf(v2).Pointer(); ptr != 0 && visit(ptr, path) {
 				return
 			}
 			keys := make([]string, 0, len(v2))
